@@ -488,6 +488,7 @@ def gen_restart(cfg, wl, fl, tier):
                        p2 * fl.randint(0, 4) + (design["clocks"]["other"]["phase"] or 0)])
         rsteps.insert(fl.randint(0, len(rsteps)), {"reset_after": 0, "crash_fs": t, "row": fl.randrange(depth)})
     return {"kind": "restart", "design": design, "tbs": tbs, "bg": bg, "proc": proc, "steps": rsteps,
+            "legacy_tb": fl.choice([0, 0, 3, maxp + 1]),
             "sched": {"mode": fl.choice(["seeded", "insertion", "reverse"]), "seed": fl.randrange(1 << 32)}}
 
 
@@ -649,6 +650,24 @@ def simulate_restart(case, stats, mode=None):
                 async for (av,) in ctx.changed(dut.a):
                     ctx.set(dut.flag2, (av ^ 5) & 15)
             sim.add_process(comb_process)
+
+        if case.get("legacy_tb"):
+            # a testbench in the deprecated generator style (still supported): restarted by reset() like any other
+            from amaranth.sim import Delay as _Delay
+
+            def legacy():
+                yield _Delay(case["legacy_tb"] * 1e-15)       # (the legacy command takes seconds)
+                va = yield dut.a
+                log.append((98, "legacy", int(va)))
+                yield dut.go.eq(1)
+                yield _Delay(case["legacy_tb"] * 1e-15)       # (the legacy command takes seconds)
+                vb = yield dut.b
+                log.append((98, "legacy2", int(vb)))
+            import warnings as _w
+            with _w.catch_warnings():
+                _w.simplefilter("ignore")
+                sim.add_testbench(legacy)
+            stats["probes"]["generator_style_testbench"] = stats["probes"].get("generator_style_testbench", 0) + 1
 
         armed = [None]
 
